@@ -2246,6 +2246,11 @@ async fn handle_packet(
         inner.created_at.elapsed().as_nanos() as u64,
         Ordering::Relaxed,
     );
+    // Zero-length payloads are legal on every path into here (empty UDP
+    // datagram, TURN ChannelData with length 0, empty DATA attribute).
+    if packet.is_empty() {
+        return;
+    }
     let b = packet[0];
     if b < 2 {
         // STUN
